@@ -85,5 +85,7 @@ if __name__ == '__main__':
         main(sys.argv[2:], rename={'A': 'I', 'B': 'J'})
     elif sys.argv[1] == '--wave7':
         main(sys.argv[2:], rename={'A': 'K', 'B': 'L'})
+    elif sys.argv[1] == '--wave8':
+        main(sys.argv[2:], rename={'A': 'M', 'B': 'N'})
     else:
         main(sys.argv[1:])
